@@ -65,10 +65,12 @@ def prune_caches(keep: str) -> None:
         shutil.rmtree(os.path.join(base, e), ignore_errors=True)
 
 
-def run_worker(prop, seed, tier, stripe, nstripes, count, budget, outfile, extra=(), hashseed="0"):
+def run_worker(prop, seed, tier, stripe, nstripes, count, budget, outfile, extra=(), hashseed="0", env_extra=None):
     cmd = [PY, "-m", "sim.worker", prop, str(seed), tier, str(stripe), str(nstripes), str(count),
            str(budget), outfile, *extra]
-    return subprocess.Popen(cmd, cwd=VERIF, env=child_env(prop, hashseed), stdout=subprocess.PIPE,
+    env = child_env(prop, hashseed)
+    env.update(env_extra or {})
+    return subprocess.Popen(cmd, cwd=VERIF, env=env, stdout=subprocess.PIPE,
                             stderr=subprocess.STDOUT, text=True)
 
 
@@ -124,7 +126,8 @@ def main() -> int:
         procs = []
         for s in range(jobs):
             out = os.path.join(tmp, f"w{s}.json")
-            procs.append((s, out, run_worker(prop, seed, tier, s, jobs, count, budget, out)))
+            wenv = meta.worker_env(s) if hasattr(meta, "worker_env") else None
+            procs.append((s, out, run_worker(prop, seed, tier, s, jobs, count, budget, out, env_extra=wenv)))
         det_out = os.path.join(tmp, "det.json")
         det = run_worker(prop, seed, tier, 0, 1, count, 0, det_out, extra=("det",), hashseed="1234")
         results, harness_errors = [], []
